@@ -62,7 +62,8 @@ Inductive expr :=
 
 (* ---------- values ---------- *)
 Inductive val :=
-| VData
+| VData                                  (* the literal of the generated programs: the string 'data.txt' *)
+| VRes                                   (* data computed by a library function *)
 | VSrc (e : expr)                        (* a string/byte array holding source text *)
 | VPlain (c : cls) (arity : nat)         (* a library function of capability class c *)
 | VEvalValue                             (* //eval.value *)
@@ -284,7 +285,8 @@ with apply (fuel : nat) (vf va : val) {struct fuel} : res * list eff :=
   | S f =>
     match vf with
     | VPlain c (S (S n)) => (Val (VPlain c (S n)), [])      (* curried library function: more arguments to come *)
-    | VPlain c _ => (Val VData, [EffCall c])
+    | VPlain c _ =>                                         (* library functions want a data argument *)
+        match va with VData => (Val VRes, [EffCall c]) | _ => (Err, []) end
     | VEvalValue =>
         match va with
         | VSrc s =>
@@ -361,7 +363,7 @@ Definition needs (bound : bool) (e : expr) : list cls :=
 
 Fixpoint auth (v : val) : list cls :=
   match v with
-  | VData | VSrc _ | VTupNil => []
+  | VData | VRes | VSrc _ | VTupNil => []
   | VPlain c _ => cap_of c
   | VEvalValue | VEvaluator => S_caps
   | VEvalWith cfg => S_caps ++ auth cfg
